@@ -1191,6 +1191,10 @@ pub fn verif_panic_outside(dom: Ghost<bool>) -> !
 '''
 
 
+DEGRADE = [True]
+DETACH_REASONS = {}
+
+
 def check_as_ref_impls(items):
     """R11 side condition: every `fn as_ref` of the crate is `self` or `&self.norm_hash`."""
     def walk(its):
@@ -1238,7 +1242,7 @@ def check_sealed_impls(items):
         raise Undecided('side condition of sizes_ok: the sealed size-trait impls of the sources are %r, expected %r' % (sorted(found), EXPECTED_SEALED))
 
 
-def assemble(unit, src):
+def assemble(unit, src, detach=None):
     items = parse_items(src, 0, len(src))
     plan = collect_unit(items, unit)
     # which paths are emitted (for `use` filtering)
@@ -1260,6 +1264,8 @@ def assemble(unit, src):
     check_sealed_impls(items)
     out = Out()
     log = []
+    detached = []
+    detach_reasons = DETACH_REASONS
     out.emit('// GENERATED by tools/extract.py from the rustc-expanded working tree of /repo.\n'
              '// unit: %s   features: %s\n' % (unit.name, ','.join(unit.features) or '(default)'))
     out.emit('#![allow(unused_imports, dead_code, unused_variables, unused_mut, unused_parens, unused_braces, non_snake_case, unused_assignments)]\n')
@@ -1301,12 +1307,41 @@ def assemble(unit, src):
             emit_mod(sub, p)
             out.emit('} // mod %s\n\n' % name)
 
+    detach = set(detach or ())
+
     def emit_fn(f, fs, qual, in_trait_impl=False, in_trait_decl=False, extra_generics=None, assoc=None, extra_where=None):
+        import copy
+        detached_reason = None
+        if fs is not None and qual in detach and not fs.external_body:
+            fs = copy.copy(fs)
+            fs.external_body = True
+            detached_reason = detach_reasons.get(qual, 'body could not be attached to its contract')
         asm = FnAsm(f, fs, qual)
         asm.extra_generics = extra_generics or []
         asm.extra_where = extra_where or []
         start = out.line
-        for text, meta in asm.build(in_trait_impl, in_trait_decl):
+        try:
+            segs = asm.build(in_trait_impl, in_trait_decl)
+        except Undecided as e:
+            if fs is None or fs.external_body or not DEGRADE[0]:
+                raise
+            # graceful degradation: this function's body no longer fits its contract file (lost anchor / loop / subst).
+            # Keep its CONTRACT for its callers (as if external) and report the function as undecided.
+            fs = copy.copy(fs)
+            fs.external_body = True
+            detached_reason = str(e)
+            asm = FnAsm(f, fs, qual)
+            asm.extra_generics = extra_generics or []
+            asm.extra_where = extra_where or []
+            segs = asm.build(in_trait_impl, in_trait_decl)
+        if detached_reason:
+            detached.append({'fn': qual, 'reason': detached_reason[:400], 'tags': sorted(set((fs.tags or []) + [t for tg, _ in fs.ensures for t in tg]))})
+        for text, meta in segs:
+            if detached_reason and meta is not None and meta.get('kind') == 'assumption':
+                meta = dict(meta)
+                meta['kind'] = 'detached'
+            if detached_reason and text.strip() == '#[verifier::external_body]':
+                text = '#[verifier::external_body] /*DETACHED*/\n'
             if assoc and meta is not None and meta.get('kind') in ('signature', 'body'):
                 # a trait-impl method emitted as an inherent method: `Self::Assoc` no longer resolves; substitute its definition
                 for an, at in assoc.items():
@@ -1438,6 +1473,7 @@ def assemble(unit, src):
 
     emit_mod(tree, '')
     out.emit('\n} // verus!\n\nfn main() {}\n')
+    out.detached = detached
     return out, log
 
 
@@ -1466,19 +1502,19 @@ def strip_attrs_and_docs_deep(t):
     return re.sub(r'\n\s*\n', '\n', ''.join(out))
 
 
-def build_unit(vc_path, out_dir):
+def build_unit(vc_path, out_dir, detach=None):
     unit = parse_contract_file(vc_path)
     if not unit.name:
         unit.name = os.path.splitext(os.path.basename(vc_path))[0]
     src, srcpath = expand(unit.features, unit.no_default)
-    out, log = assemble(unit, src)
+    out, log = assemble(unit, src, detach)
     os.makedirs(out_dir, exist_ok=True)
     rs = os.path.join(out_dir, unit.name + '.rs')
     with open(rs, 'w') as fh:
         fh.write(out.text())
     meta = {'unit': unit.name, 'features': unit.features, 'expanded': srcpath,
             'clauses': out.meta, 'fn_ranges': out.fn_ranges, 'functions': log,
-            'properties': unit.properties, 'verus_args': unit.verus_args}
+            'properties': unit.properties, 'verus_args': unit.verus_args, 'detached': out.detached}
     with open(os.path.join(out_dir, unit.name + '.map.json'), 'w') as fh:
         json.dump(meta, fh, indent=1)
     return rs, meta
